@@ -131,20 +131,45 @@ let run_model (sc : scenario) : string =
   let s0 = init_store sc u in
   let cmds = Stdlib.List.map parse_cmd sc.cmds in
   if sc.eng = "x" then begin
-    let n = match sc.nodes with [n] -> n | _ -> failwith "the experimental engine has exactly one peer" in
+    (* every connection has its own experimental Peer object (own cursor, flags, latest height); the objects share nothing
+       but the store: one extracted xsys per node, the store threaded through them *)
     let cfg = { SyncExp.x_cps = coq_cps sc; x_forb = sc.hist.forbidden } in
-    let z0 = SyncSys.z_init cfg sc.hist.gid (n_of_int n.np) s0 (coq_node u n) in
-    let (z, traces) = SyncSys.z_run z0 cmds in
-    let p = n_of_int n.np in
-    let steps = Stdlib.List.map (fun tr ->
-        Stdlib.String.concat "," (Stdlib.List.map (fun ((ev, es), st) ->
-            let label = match ev with
-              | None -> "N" ^ dec_of_n p
-              | Some (SyncExp.XHeaders hs) -> hdr_label p hs
-              | Some (SyncExp.XInv l) -> inv_label p l
-              | Some SyncExp.XGetHeaders -> "GH" ^ dec_of_n p in
-            label ^ ":" ^ effs_string es ^ estate_string st) tr)) traces in
-    Stdlib.String.concat ";" ("init~-" :: steps) ^ "|" ^ final_string sc z.SyncSys.z_eng.SyncExp.e_store
+    let store = ref s0 in
+    let zs = Stdlib.List.map (fun n -> (n.np, ref (SyncSys.z_init cfg sc.hist.gid (n_of_int n.np) s0 (coq_node u n)))) sc.nodes in
+    let with_store (z : SyncSys.xsys) st = { z with SyncSys.z_eng = { z.SyncSys.z_eng with SyncExp.e_store = st } } in
+    let render p tr = Stdlib.String.concat "," (Stdlib.List.map (fun ((ev, es), st) ->
+        let label = match ev with
+          | None -> "N" ^ dec_of_n p
+          | Some (SyncExp.XHeaders hs) -> hdr_label p hs
+          | Some (SyncExp.XInv l) -> inv_label p l
+          | Some SyncExp.XGetHeaders -> "GH" ^ dec_of_n p in
+        label ^ ":" ^ effs_string es ^ estate_string st) tr) in
+    let on_node pi c =
+      match Stdlib.List.assoc_opt pi zs with
+      | None -> ""
+      | Some zr ->
+        let (z', tr) = SyncSys.z_cmd (with_store !zr !store) c in
+        zr := z'; store := z'.SyncSys.z_eng.SyncExp.e_store;
+        render (n_of_int pi) tr in
+    let ready () = Stdlib.List.find_opt (fun (_, zr) ->
+        let n = !zr.SyncSys.z_node in n.SyncSys.n_open && n.SyncSys.n_out <> []) zs in
+    let steps = Stdlib.List.map (fun c ->
+        match c with
+        | SyncSys.CRun fuel ->
+          let parts = ref [] in
+          let f = ref (int_of_nat fuel) in
+          let go = ref true in
+          while !go && !f > 0 do
+            (match ready () with
+             | None -> go := false
+             | Some (pi, _) -> parts := on_node pi (SyncSys.CDeliver (n_of_int pi)) :: !parts);
+            decr f
+          done;
+          Stdlib.String.concat "," (Stdlib.List.rev !parts)
+        | SyncSys.CConnect p | SyncSys.CDeliver p | SyncSys.CClose p | SyncSys.CStall p | SyncSys.CGetHeaders p -> on_node (int_of_n p) c
+        | SyncSys.CAnnounce (p, _, _) -> on_node (int_of_n p) c
+        | SyncSys.CDone _ | SyncSys.CTick _ -> "") cmds in
+    Stdlib.String.concat ";" ("init~-" :: steps) ^ "|" ^ final_string sc !store
   end else begin
     let cfg = { SyncDefault.c_cps = coq_cps sc; c_disable = sc.dis; c_forb = sc.hist.forbidden; c_now = rig_now } in
     let nodes = Stdlib.List.map (fun n -> (n_of_int n.np, coq_node u n)) sc.nodes in
